@@ -433,8 +433,13 @@ def c13(tier, seed):
 
     def threads(tier_, seed_):
         rnd = random.Random(seed_)
-        return [{'threads': n, 'seqs': [[rnd.randint(1, 12) for _ in range(25 if quick else 120)] for _ in range(n)]}
+        long = [{'threads': n, 'seqs': [[rnd.randint(1, 14) for _ in range(25 if quick else 120)] for _ in range(n)]}
                 for n in ((2, 4, 8, 16) if quick else (2, 3, 4, 6, 8, 12, 16, 16))]
+        # many FRESH dispatchers whose very first dispatches overlap (whatever a dispatcher builds lazily on first use is built
+        # while another thread is already asking for it)
+        fresh = [{'threads': n, 'seqs': [[rnd.randint(1, 14) for _ in range(4)] for _ in range(n)]}
+                 for _ in range(12 if quick else 60) for n in (2, 4, 8, 16)]
+        return long + fresh
 
     def retention(tier_, seed_):
         return [{'flavour': f, 'kind': k, 'n': n} for f in ('func', 'func0', 'func_exc', 'view', 'view_ctx', 'view_typed', 'view_schema', 'schema', 'typed')
@@ -454,7 +459,7 @@ def c13(tier, seed):
              'name), view methods without / with context, JSON-schema and pydantic validated methods, sync and async: after '
              'every dispatch gc runs and the live contexts and the growth of gc-tracked objects are reported (required: 0 / no); '
              '(c) thread pools of 2..16 threads dispatching random interleaved sequences over the corpus on one synchronous '
-             'dispatcher (sampled schedules, seeded by VERIF_SEED), every dispatch validated on its own; non-trivial = a '
+             'dispatcher (sampled schedules, seeded by VERIF_SEED; the interpreter switches threads as often as it can; besides the long runs 48 (thorough: 240) fresh dispatchers whose very first dispatches overlap), every dispatch validated on its own; by content, a history runs with RE-ENTRANT use: the method dispatches another corpus entry on the same dispatcher before it returns; non-trivial = a '
              'dispatch with >= 3 events / a retention run of >= 10 dispatches' % ((3, 200) if quick else (4, 1000)),
         assumptions=ASSUME_DISP + ['thread schedules are sampled, not enumerated (CPython has no deterministic scheduler); asyncio '
                                    'schedules are enumerated under C10', 'gc.collect() + object counts observe retention; methods keep no state of their own'],
